@@ -214,8 +214,8 @@ def half(rng, lo, hi):
 
 def gen_random(rng, mode):
     if mode == "dense":
-        n = rng.choice([20, 40, 80, 120, 150])
-        span = rng.choice([10, 50, 200])
+        n = rng.choice([20, 40, 80, 120, 150, 180, 200])
+        span = rng.choice([2, 10, 50, 200])
         labels = [[half(rng, 0, span), half(rng, 0.5, 12)] for _ in range(n)]
     else:
         n = rng.randint(1, 40)
@@ -257,6 +257,53 @@ def gen_bounds(rng):
     return {"labels": labels, "opts": opts}
 
 
+def gen_budget(rng):
+    """Label sets whose required width sits exactly on, or half a unit around, a NON-INTEGER layer budget (dyadic density, so
+    that density * layerWidth is exact): 'fits the budget' must mean <=, not < floor."""
+    dens = rng.choice([0.5, 0.75])
+    lw = rng.choice([50, 51, 75, 101, 30])
+    if dens == 0.75 and (3 * lw) % 4 == 0:
+        lw += 2
+    if dens == 0.5 and lw % 2 == 0:
+        lw += 1
+    budget = dens * lw                      # has a fractional part of .25 / .5 / .75
+    ns = rng.choice([0, 1, 3, 0.5])
+    n = rng.randint(3, 8)
+    target = budget + rng.choice([0, 0, -0.5, 0.5, -1])
+    target = round(target * 2) / 2.0        # required widths are multiples of 0.5
+    rest = target - (n - 1) * ns
+    if rest < n * 0.5:
+        n = 3
+        rest = target - (n - 1) * ns
+    widths = [0.5] * n
+    left = rest - 0.5 * n
+    k = 0
+    while left > 1e-9:
+        add = min(left, rng.choice([0.5, 1, 2.5, 4]))
+        widths[k % n] += add
+        left -= add
+        k += 1
+    mn = rng.choice([0, 10, -5.5])
+    labels = [[half(rng, mn, mn + lw), w] for w in widths]
+    opts = {"nodeSpacing": ns, "algorithm": rng.choice(["overlap", "simple"]), "density": dens, "stubWidth": rng.choice([0, 1]),
+            "minPos": mn, "maxPos": mn + lw}
+    return {"labels": labels, "opts": opts}
+
+
+def gen_wallpress(rng):
+    """Many labels whose data positions all sit at one bound of a layer that FITS: the walls must not give way."""
+    n = rng.choice([60, 110, 150, 190])
+    w = rng.choice([1, 2, 4])
+    ns = rng.choice([0, 1, 3])
+    req = n * w + (n - 1) * ns
+    mn = rng.choice([0, -50])
+    mx = mn + req + rng.choice([0, 1, 10, 100])
+    at = rng.choice([mn, mx])
+    labels = [[at + rng.choice([0, 0, 0.5, -0.5, 1]), w] for _ in range(n)]
+    opts = {"nodeSpacing": ns, "algorithm": "none", "density": 1, "stubWidth": 1, "minPos": mn, "maxPos": mx}
+    return {"labels": labels, "opts": opts}
+
+
 def gen_float(rng):
     n = rng.randint(1, 30)
     span = rng.choice([50, 400, 1000])
@@ -286,7 +333,9 @@ def main():
             elif mode == "relayout":
                 r = run_relayout(rng)
             elif mode == "bounds":
-                r = run_instance(gen_bounds(rng), 4, True)
+                r = run_instance(gen_bounds(rng) if rng.random() < 0.9 else gen_wallpress(rng), 4, True)
+            elif mode == "budget":
+                r = run_instance(gen_budget(rng), 4, True)
             else:
                 r = run_instance(gen_random(rng, mode), 4, True)
             recs.append(r)
